@@ -149,6 +149,70 @@ pub fn draw_cfg(profile: &str, thorough: bool, rng: &mut Rng) -> RunCfg {
                 nd.cleanup_fmt = false;
             }
         }
+        "svsync" => {
+            cfg.w_sync = rng.range(8, 20) as u32;
+            cfg.w_special = rng.range(3, 10) as u32;
+            cfg.sync_diff_pct = *rng.pick(&[0, 50, 50, 100]);
+            let mut misroute = 0u32;
+            pick_faults(
+                rng,
+                &mut [
+                    (&mut cfg.w_dup, 4, 12),
+                    (&mut cfg.w_drop, 2, 10),
+                    (&mut cfg.w_hold, 2, 8),
+                    (&mut cfg.w_gc, 2, 8),
+                    (&mut cfg.w_partition, 1, 5),
+                    (&mut misroute, 10, 40),
+                ],
+            );
+            cfg.misroute_pct = misroute;
+        }
+        "log" => {
+            cfg.w_special = *rng.pick(&[0, 2, 4, 6]);
+            pick_faults(
+                rng,
+                &mut [
+                    (&mut cfg.w_dup, 3, 12),
+                    (&mut cfg.w_drop, 2, 8),
+                    (&mut cfg.w_hold, 2, 8),
+                    (&mut cfg.w_sync, 3, 12),
+                    (&mut cfg.w_gc, 3, 10),
+                ],
+            );
+            cfg.echo_suppress = false;
+        }
+        "gc" => {
+            // mixed GC settings in the cluster, deletion-heavy workload
+            for (i, nd) in nodes.iter_mut().enumerate() {
+                nd.skip_gc = (i + (ids[0] as usize)) % 2 == 0;
+            }
+            gen.del_pct = *rng.pick(&[25, 40, 55]);
+            cfg.w_gc = rng.range(3, 10) as u32;
+            cfg.w_special = rng.range(2, 6) as u32;
+            pick_faults(
+                rng,
+                &mut [
+                    (&mut cfg.w_dup, 3, 12),
+                    (&mut cfg.w_drop, 2, 8),
+                    (&mut cfg.w_hold, 2, 8),
+                    (&mut cfg.w_sync, 3, 12),
+                    (&mut cfg.w_partition, 1, 5),
+                ],
+            );
+        }
+        "relay" => {
+            cfg.w_special = rng.range(8, 18) as u32;
+            pick_faults(
+                rng,
+                &mut [
+                    (&mut cfg.w_dup, 3, 12),
+                    (&mut cfg.w_hold, 2, 8),
+                    (&mut cfg.w_sync, 3, 12),
+                    (&mut cfg.w_gc, 2, 8),
+                    (&mut cfg.w_partition, 1, 5),
+                ],
+            );
+        }
         _ => {
             let mut misroute = 0u32;
             pick_faults(
